@@ -44,7 +44,7 @@ CKINDS = ["mod", "main", "nested", "lambda", "obj", "bound", "partial", "wraps",
 #   wrapsev  functools.wraps(<function reachable from celpy.evaluation's globals>)(wrapper): copied __module__/__qualname__/__wrapped__
 #   eqobj    callable object that compares equal to everything and carries the __module__/__qualname__ of a built-in
 #   qualfn   nested def whose __module__/__qualname__ were set to those of a built-in
-# the model has no separate kind for them: they are callables the transpiled program must look up in the activation
+# (model: CKind.wrapsVisible / equalToAll / renamedDef — `Denotes.other`: the text denotes ANOTHER object, so no dotted text)
 LOOKALIKE = {"wrapsev": "wraps", "eqobj": "obj", "qualfn": "nested"}
 DICT_ONLY = ("partial", "wraps") + tuple(LOOKALIKE)
 NAMED_KINDS = ["mod", "main", "nested", "lambda", "obj", "bound", "ev"]      # can carry a chosen __name__ for list style
@@ -341,7 +341,7 @@ def lean_beh(beh) -> str:
 def lean_prog(p) -> str:
     out = [p["runner"], p["style"], str(len(p["fns"]))]
     for s in p["fns"]:
-        out += [s["key"], spec_pyname(s) or "-", LOOKALIKE.get(s["ckind"], s["ckind"]), lean_beh(s["beh"])]
+        out += [s["key"], spec_pyname(s) or "-", s["ckind"], lean_beh(s["beh"])]
     out.append(to_lean(p["expr"]))
     return " ".join(out)
 
